@@ -267,6 +267,34 @@ fn edge_interfaces() -> Vec<Iface> {
             errors: vec![(s("Mod"), vec![(s("impl"), Ty::Str)]), (s("Dyn"), vec![])],
             ..Default::default()
         },
+        // custom types that refer to other custom types (never to themselves): a leaf type per kind
+        // of value, a wrapper per way of referring (plain, optional, array, map), and two levels on top
+        Iface {
+            name: s("org.edge.nested"),
+            structs: vec![
+                (s("LeafF"), vec![(s("lat"), Ty::Float), (s("lon"), Ty::Float)]),
+                (s("LeafO"), vec![(s("any"), Ty::Object)]),
+                (s("LeafS"), vec![(s("name"), Ty::Str), (s("kind"), Ty::CustomEnum(0)), (s("n"), Ty::Opt(b(Ty::Int)))]),
+                (s("LeafM"), vec![(s("ratios"), Ty::Map(b(Ty::Float))), (s("tags"), Ty::Arr(b(Ty::Str)))]),
+                (s("LeafI"), vec![(s("inner"), Ty::InlineStruct), (s("pick"), Ty::InlineEnum)]),
+                (s("WrapF"), vec![(s("name"), Ty::Str), (s("position"), Ty::CustomStruct(0))]),
+                (s("WrapOptO"), vec![(s("o"), Ty::Opt(b(Ty::CustomStruct(1))))]),
+                (s("WrapArrS"), vec![(s("items"), Ty::Arr(b(Ty::CustomStruct(2))))]),
+                (s("WrapMapM"), vec![(s("by_name"), Ty::Map(b(Ty::CustomStruct(3))))]),
+                (s("WrapI"), vec![(s("i"), Ty::CustomStruct(4)), (s("e"), Ty::Opt(b(Ty::CustomEnum(0))))]),
+                (s("WrapEnums"), vec![(s("all"), Ty::Arr(b(Ty::CustomEnum(0)))), (s("named"), Ty::Map(b(Ty::CustomEnum(0))))]),
+                (s("Mid"), vec![(s("f"), Ty::CustomStruct(5)), (s("s"), Ty::CustomStruct(7)), (s("m"), Ty::Opt(b(Ty::CustomStruct(8))))]),
+                (s("Top"), vec![(s("mid"), Ty::CustomStruct(11)), (s("mids"), Ty::Arr(b(Ty::CustomStruct(11)))), (s("o"), Ty::CustomStruct(6)), (s("i"), Ty::Map(b(Ty::CustomStruct(9))))]),
+            ],
+            enums: vec![(s("Kind"), vec![s("big"), s("small")])],
+            methods: vec![
+                (s("Put"), vec![(s("top"), Ty::CustomStruct(12)), (s("f"), Ty::CustomStruct(5))], vec![(s("mid"), Ty::CustomStruct(11))]),
+                (s("Get"), vec![(s("e"), Ty::CustomStruct(10))], vec![(s("top"), Ty::CustomStruct(12)), (s("wraps"), Ty::Arr(b(Ty::CustomStruct(5))))]),
+                (s("Leaves"), vec![(s("f"), Ty::CustomStruct(0)), (s("s"), Ty::Arr(b(Ty::CustomStruct(2))))], vec![(s("o"), Ty::Opt(b(Ty::CustomStruct(6)))), (s("i"), Ty::CustomStruct(9)), (s("m"), Ty::CustomStruct(8))]),
+            ],
+            errors: vec![(s("Bad"), vec![(s("where"), Ty::CustomStruct(5)), (s("what"), Ty::Opt(b(Ty::CustomStruct(7))))])],
+            ..Default::default()
+        },
     ]
 }
 
